@@ -26,6 +26,7 @@ RULE = (
     'mistyped value, run returns an unserializable value. Oracle, on a fresh chain per state: for A and its dependant B '
     'has_data is either False - then value recomputes (exactly one run of A) and equals the reference value - or True - '
     'then value loads with zero runs and equals the reference value; no exception either way; afterwards has_data is '
+    '(for every rename additionally the state right after it with nothing else flushed) '
     'True and a second fresh chain loads the same value. After a raised fault additionally: requesting again in the '
     'SAME chain recovers; a failed DirData work directory is set aside as <key>_error and <key> is absent; a '
     'ContinuesData work directory and its content survive for the next run and <key> appears only after finished(). '
@@ -215,6 +216,21 @@ def eval_raised(case_spec, rec):
                     raise Violation('resumable-work-directory-lost', dict(info, listing=listing(data)))
                 if scenario == 'first' and (adir / key).exists():
                     raise Violation('unfinished-resumable-result-visible', dict(info, listing=listing(data)))
+            # a second failure of the same kind right away: the error of run must propagate again (not some other
+            # error from the clean-up of the first failure), and a later request still recovers
+            if fault in ('raise-pre', 'raise-mid', 'gen-mid'):
+                if fault == 'raise-pre':
+                    RT.fail['g:a'] = 1
+                else:
+                    RT.special['g:a'] = {'raise-mid': 'mid'}.get(fault, fault)
+                second = None
+                try:
+                    with hyp.quiet_output():
+                        _ = a.value
+                except Exception as e:
+                    second = e
+                if not isinstance(second, InjectedFault):
+                    raise Violation('second-failure-did-not-propagate-the-run-error', dict(info, error=repr(second)[:300]))
             # same chain: requesting again recovers
             RT.fail.clear()
             RT.special.clear()
